@@ -522,7 +522,11 @@ impl RobotBody {
     }
 
     fn check_required(&self, i: usize, j: usize, skip: &HashSet<usize>, safety: &SafetyDistances) -> bool {
-        !skip.contains(&i) && !skip.contains(&j) &&
+        // A pair can only be skipped if neither of its bodies moved. The base and the
+        // environment objects never move.
+        let static_i = skip.contains(&i) || i == J_BASE || i >= ENV_START_IDX;
+        let static_j = skip.contains(&j) || j == J_BASE || j >= ENV_START_IDX;
+        !(static_i && static_j) &&
             safety.min_distance(i as u16, j as u16) > &NEVER_COLLIDES
     }    
 }
